@@ -496,3 +496,142 @@ func genLimitZeroAtOffsets(thorough bool, emit emitFn) {
 		}
 	}
 }
+
+// sourceOptionsX: small sources with every combination of terminal kind (EOF, error,
+// http.ErrBodyReadAfterClose), terminal with data / alone, closer or not, io.WriterTo or not.
+func sourceOptionsX(salt int) []SrcSpec {
+	var out []SrcSpec
+	for _, sc := range [][]int{{}, {1}, {1, 1}, {0, 2, 0}} {
+		L := 0
+		for _, x := range sc {
+			L += x
+		}
+		for style := 0; style < 24; style++ {
+			sp := SrcSpec{Content: content(L, salt), Script: sc, WithData: style&1 != 0, Closable: style&2 != 0, WT: style&4 != 0}
+			switch style / 8 {
+			case 1:
+				sp.Boom = true
+			case 2:
+				sp.BodyClosed = true
+			}
+			out = append(out, sp)
+		}
+	}
+	return out
+}
+
+// genMultiFastPaths: the io.CopyBuffer fast paths inside MultiReaderCloser.WriteTo (sources with
+// WriteTo, writers with ReadFrom of several buffer sizes) and the ErrBodyReadAfterClose branch of
+// Read, for one and two sources exhaustively over sourceOptionsX.
+func genMultiFastPaths(thorough bool, r *lib.Rand, emit emitFn) {
+	o0, o1 := sourceOptionsX(0), sourceOptionsX(1)
+	modes := func(srcs []SrcSpec) {
+		for _, rf := range []int{0, 1, 3, 512} {
+			emit(&Case{Kind: "multi", WCap: -1, RF: rf, Srcs: srcs, Mode: "copy", Closes: 1})
+		}
+		emit(&Case{Kind: "multi", WCap: -1, Srcs: srcs, Mode: "copybuf", Closes: 1})
+		emit(&Case{Kind: "multi", WCap: -1, Srcs: srcs, Mode: "read", Buf: 1, Closes: 1})
+		emit(&Case{Kind: "multi", WCap: -1, Srcs: srcs, Mode: "read", Buf: 3, Closes: 1})
+		emit(&Case{Kind: "multi", WCap: -1, Srcs: srcs, Mode: "readall", Closes: 1})
+	}
+	for _, a := range o0 {
+		modes([]SrcSpec{a})
+		// failing writers (model comparison of per-op results, writer bytes, close counts), resume
+		for wcap := 0; wcap <= 2; wcap++ {
+			for _, rf := range []int{0, 1} {
+				emit(&Case{Kind: "multi", WCap: wcap, RF: rf, WClos: wcap == 1, Srcs: []SrcSpec{a}, Mode: "ops", Ops: []string{"w", "w", "r2", "c"}})
+			}
+		}
+	}
+	for i, a := range o0 {
+		for j, b := range o1 {
+			if !thorough && (i*7+j*3)%4 != 0 { // quick: a quarter of the pairs, every option still occurs in both positions
+				continue
+			}
+			modes([]SrcSpec{a, b})
+			wcap := (i + j) % 4
+			emit(&Case{Kind: "multi", WCap: wcap, RF: (i + j) % 2, Srcs: []SrcSpec{a, b}, Mode: "ops", Ops: []string{"w", "r1", "w", "c", "c"}})
+		}
+	}
+	// three to five sources, sampled
+	n := 3000
+	if thorough {
+		n = 30000
+	}
+	for i := 0; i < n; i++ {
+		k := 3 + r.Intn(3)
+		srcs := make([]SrcSpec, k)
+		for j := range srcs {
+			if j%2 == 0 {
+				srcs[j] = o0[r.Intn(len(o0))]
+			} else {
+				srcs[j] = o1[r.Intn(len(o1))]
+			}
+			if r.Intn(3) != 0 { // keep most streams going past the first source
+				srcs[j].Boom = false
+			}
+		}
+		switch r.Intn(4) {
+		case 0:
+			emit(&Case{Kind: "multi", WCap: -1, RF: []int{0, 1, 7, 512}[r.Intn(4)], Srcs: srcs, Mode: "copy", Closes: 1})
+		case 1:
+			emit(&Case{Kind: "multi", WCap: -1, Srcs: srcs, Mode: "copybuf", Closes: 1})
+		case 2:
+			emit(&Case{Kind: "multi", WCap: -1, Srcs: srcs, Mode: "read", Buf: r.Range(1, 4), Closes: 1})
+		default:
+			emit(&Case{Kind: "multi", WCap: r.Range(0, 6), RF: r.Intn(3), Srcs: srcs, Mode: "ops", Ops: []string{"r1", "w", "w", "c"}})
+		}
+	}
+}
+
+// genStd: real standard-library sources that implement io.WriterTo (strings.Reader, bytes.Reader,
+// bytes.Buffer, *os.File) and real destinations that implement io.ReaderFrom (bytes.Buffer,
+// *os.File), mixed with scripted ones, through every reader and consumer.
+func genStd(thorough bool, r *lib.Rand, emit emitFn) {
+	stds := []string{"strings", "bytesreader", "bytesbuffer", "file"}
+	lens := []int{0, 1, 5, 700, 40000}
+	mk := func(std string, L, salt int) SrcSpec {
+		return SrcSpec{Content: content(L, salt), Std: std, Closable: true}
+	}
+	for _, std := range stds {
+		for li, L := range lens {
+			if std == "file" && L == 40000 && !thorough {
+				continue
+			}
+			one := []SrcSpec{mk(std, L, li)}
+			scripted := SrcSpec{Content: content(3, 9), Script: []int{1, 0, 2}, WithData: true, Closable: true}
+			lists := [][]SrcSpec{one, {scripted, mk(std, L, li)}, {mk(std, L, li), scripted, mk(stds[(li+1)%4], 5, 7)}}
+			for _, srcs := range lists {
+				for _, stdw := range []string{"", "bytesbuffer", "file"} {
+					emit(&Case{Kind: "multi", WCap: -1, StdW: stdw, Srcs: srcs, Mode: "copy", Closes: 1})
+				}
+				emit(&Case{Kind: "multi", WCap: -1, RF: 4, Srcs: srcs, Mode: "copy", Closes: 1})
+				emit(&Case{Kind: "multi", WCap: -1, Srcs: srcs, Mode: "readall", Closes: 1})
+				emit(&Case{Kind: "multi", WCap: -1, Srcs: srcs, Mode: "read", Buf: 3, Closes: 1})
+				// failing writer + resume: not for *os.File sources — os.File.WriteTo reads ahead of
+				// what the writer accepted (generic io.Copy inside), which Src.writeTo does not model
+				hasFile := false
+				for _, sp := range srcs {
+					hasFile = hasFile || sp.Std == "file"
+				}
+				if L <= 5 && !hasFile {
+					emit(&Case{Kind: "multi", WCap: 2, Srcs: srcs, Mode: "ops", Ops: []string{"w", "r4", "c"}})
+				}
+			}
+			// the same real sources under limit and tee (they only ever see Read there)
+			for _, N := range []int64{int64(L) - 1, int64(L), int64(L) + 1} {
+				if N < 0 {
+					continue
+				}
+				for _, mode := range []string{"copy", "readall"} {
+					emit(&Case{Kind: "limit", N: N, WCap: -1, Srcs: one, Mode: mode, Closes: 1})
+				}
+			}
+			for _, wcap := range []int{-1, L / 2} {
+				emit(&Case{Kind: "tee", WCap: wcap, WClos: true, RF: li % 2, Srcs: one, Mode: "copy", Closes: 1})
+				emit(&Case{Kind: "tee", WCap: wcap, WClos: true, Srcs: one, Mode: "read", Buf: 4096, Closes: 1})
+			}
+		}
+	}
+	_ = r
+}
